@@ -590,6 +590,94 @@ func propFree(c FreeCase, r *pbt.R) error {
 	return nil
 }
 
+// ---------------------------------------------------------------------------
+// results the cache cannot hold (the cache rejects the empty string): the callers still receive what was produced
+
+// ZeroCase: Calls sequential Memoize calls for one key on a Memoizer[string,string]; Pat[i] says what the ith EXECUTION of
+// the function returns: 'z' = an item whose value is the empty string (the zero value; the cache refuses to store it),
+// 'v' = an item with a non-empty value of its own, 'e' = an error. Executions beyond the pattern return 'v'.
+type ZeroCase struct {
+	Calls int    `json:"calls"`
+	Pat   string `json:"pat"`
+}
+
+func mkStrItem(v string) *cache.Item[string] {
+	if v == "" {
+		return new(cache.Item[string]) // the zero item: Val() == ""
+	}
+	aux := cache.New[string, string](cache.NoExpiration, 0)
+	aux.Set("x", v, cache.NoExpiration)
+	it, _ := aux.Get("x")
+	return it
+}
+
+func zeroEnum(s pbt.Src, thorough bool) ZeroCase {
+	n := 4
+	if thorough {
+		n = 6
+	}
+	pat := pbt.Seq(s, 0, n, func(s pbt.Src) byte { return "zve"[s.Intn(3)] })
+	return ZeroCase{Calls: pbt.Range(s, 1, n), Pat: string(pat)}
+}
+
+func zeroProp(c ZeroCase, r *pbt.R) error {
+	calls := c.Calls
+	if calls < 0 || calls > 64 {
+		return nil
+	}
+	m := gogu.NewMemoizer[string, string](cache.NoExpiration, 0)
+	execs := 0
+	cached := "" // the non-empty value a successful execution produced (from then on every call must return it)
+	sawZero := false
+	for i := 0; i < calls; i++ {
+		before := execs
+		var produced string
+		var producedErr error
+		it, err := m.Memoize("k", func() (*cache.Item[string], error) {
+			execs++
+			kind := byte('v')
+			if execs <= len(c.Pat) {
+				kind = c.Pat[execs-1]
+			}
+			switch kind {
+			case 'z':
+				produced = ""
+				return mkStrItem(""), nil
+			case 'e':
+				producedErr = fmt.Errorf("fn error #%d", execs)
+				return nil, producedErr
+			}
+			produced = fmt.Sprintf("value#%d", execs)
+			return mkStrItem(produced), nil
+		})
+		ran := execs - before
+		ctx := fmt.Sprintf("Memoizer[string,string], executions return %q (then values), call %d of %d", c.Pat, i+1, calls)
+		switch {
+		case cached != "":
+			if ran != 0 || err != nil || it.Val() != cached {
+				return fmt.Errorf("%s: the value %q was cached, but the call ran the function %d time(s) and returned (%q, %v)", ctx, cached, ran, it.Val(), err)
+			}
+		case ran != 1:
+			return fmt.Errorf("%s: nothing is cached, the call ran the function %d time(s), want 1", ctx, ran)
+		case producedErr != nil:
+			if !errors.Is(err, producedErr) {
+				return fmt.Errorf("%s: the execution failed with %q, the caller received (%q, %v)", ctx, producedErr, it.Val(), err)
+			}
+		default:
+			if err != nil || it.Val() != produced {
+				return fmt.Errorf("%s: the execution produced the value %q without an error, the caller received (%q, %v)", ctx, produced, it.Val(), err)
+			}
+			if produced != "" {
+				cached = produced
+			} else {
+				sawZero = true
+			}
+		}
+	}
+	r.NonTrivialIf(sawZero, "an execution produced the empty string (not storable)")
+	return nil
+}
+
 func TestProp(t *testing.T) {
 	pbt.Run(t, "C17",
 		&pbt.Check[Case]{
@@ -601,6 +689,13 @@ func TestProp(t *testing.T) {
 			Enum: enum, Gen: gen, Prop: prop, OutOfEnum: outOfEnum,
 			RapidQuick: 1500, RapidThorough: 20000,
 			Bubble: true,
+		},
+		&pbt.Check[ZeroCase]{
+			Name: "uncacheable",
+			Rule: "sequential Memoize calls for one key on a Memoizer[string,string] whose function returns, per execution, an item holding the EMPTY string (which the cache refuses to store), an item with a value of its own, or an error: " +
+				"every caller receives exactly what its execution produced (the empty value without an invented error), errors are not cached, the first non-empty value is served from then on without running the function. " +
+				"Enumerated: 1..4 (thorough 6) calls x every outcome pattern of that length. Non-trivial = some execution produced the empty string.",
+			Enum: zeroEnum, Prop: zeroProp,
 		},
 		&pbt.Check[FreeCase]{
 			Name: "free",
